@@ -4,7 +4,7 @@ tier=${1:-quick}
 cd "$(dirname "$0")/.."
 for p in C04 C05 C06 C07 C08 C09 C10 C11 C12 C13 C14 C19 C20; do
   s=$(date +%s)
-  out=$(timeout 3600 /venv/bin/python -m dsim.check $p --tier $tier 2>&1)
+  out=$(timeout 6000 /venv/bin/python -m dsim.check $p --tier $tier 2>&1)
   rc=$?
   echo "$p rc=$rc $(( $(date +%s) - s ))s :: $(echo "$out" | tail -1)"
   echo "$out" | grep -E "^VIOLATION|^HARNESS-ERROR" | head -5
